@@ -9,6 +9,7 @@ package siml
 // versions, bindings) are checked once per process. See DESIGN.md §5 C15.
 
 import (
+	"bytes"
 	"encoding/json"
 	"fmt"
 	"os"
@@ -22,6 +23,7 @@ import (
 
 	"github.com/nspcc-dev/neo-go/pkg/smartcontract/manifest"
 	"github.com/nspcc-dev/neo-go/pkg/util"
+	"github.com/nspcc-dev/neo-go/pkg/vm"
 	"github.com/nspcc-dev/neofs-contract/contracts"
 )
 
@@ -117,10 +119,53 @@ func TestDiff(t *testing.T) {
 }
 
 var (
-	staticOnce   sync.Once
-	staticIssues []string
-	staticDone   int
+	staticOnce    sync.Once
+	staticIssues  []string
+	staticDone    int
+	staticInstr   int
+	staticCounted bool
 )
+
+// scriptDiff walks two scripts instruction by instruction and describes the
+// first difference ("" if they are the same stream).
+func scriptDiff(a, b []byte) string {
+	ca, cb := vm.NewContext(a), vm.NewContext(b)
+	for n := 0; ; n++ {
+		ipa := ca.NextIP()
+		opa, pa, ea := ca.Next()
+		opb, pb, eb := cb.Next()
+		if ea != nil || eb != nil {
+			if (ea != nil) != (eb != nil) {
+				return fmt.Sprintf("instruction %d at offset %d: one stream does not decode (%v / %v)", n, ipa, ea, eb)
+			}
+			if !bytes.Equal(a, b) {
+				return fmt.Sprintf("neither stream decodes at instruction %d and the bytes differ", n)
+			}
+			return ""
+		}
+		if opa != opb || !bytes.Equal(pa, pb) {
+			return fmt.Sprintf("instruction %d at offset %d: sources %s %x, shipped %s %x", n, ipa, opa, pa, opb, pb)
+		}
+		if ipa >= len(a) {
+			if len(a) != len(b) {
+				return fmt.Sprintf("lengths %d and %d", len(a), len(b))
+			}
+			return ""
+		}
+	}
+}
+
+func countInstr(a []byte) int {
+	c := vm.NewContext(a)
+	n := 0
+	for c.NextIP() < len(a) {
+		if _, _, err := c.Next(); err != nil {
+			break
+		}
+		n++
+	}
+	return n
+}
 
 // staticChecks compares, for all 11 contracts, the manifest compiled from the
 // working tree with the shipped one (ABI without offsets, events, permissions,
@@ -141,6 +186,14 @@ func staticChecks(r *Run) {
 				if d := manifestDiff(src.Manifest, pair.a.Manifest); d != "" {
 					staticIssues = append(staticIssues, fmt.Sprintf("C15/manifest-differs|%s: %s manifest differs from the sources: %s", n, pair.what, d))
 				}
+				// "every instruction of each executable": the instruction streams
+				// and the method tokens, one by one
+				if d := scriptDiff(src.NEF.Script, pair.a.NEF.Script); d != "" {
+					staticIssues = append(staticIssues, fmt.Sprintf("C15/executable-differs|%s: %s executable differs from the sources compiled with the pinned compiler: %s", n, pair.what, d))
+				} else if !reflect.DeepEqual(src.NEF.Tokens, pair.a.NEF.Tokens) {
+					staticIssues = append(staticIssues, fmt.Sprintf("C15/executable-differs|%s: %s executable has other method tokens than the sources", n, pair.what))
+				}
+				staticInstr += countInstr(src.NEF.Script)
 				staticDone++
 			}
 			_ = ver
@@ -150,7 +203,12 @@ func staticChecks(r *Run) {
 		p := strings.SplitN(is, "|", 2)
 		r.Violation(p[0], "", "%s", p[1])
 	}
-	r.CountN("static_manifest_comparisons", int64(staticDone))
+	if !staticCounted {
+		// done once per process, counted once per process
+		staticCounted = true
+		r.CountN("static_manifest_comparisons", int64(staticDone))
+		r.CountN("static_instructions_compared", int64(staticInstr))
+	}
 	orderAndVersions(r)
 }
 
